@@ -235,9 +235,16 @@ pub const VAR_NAMES: [&str; 12] = [
     "x", "y", "z", "w", "u", "v", "a", "b", "c", "d", "e", "f",
 ];
 
+thread_local! {
+    /// generated binder names get a leading underscore (C15: `_v7` is an ordinary variable name)
+    pub static UNDERSCORE_NAMES: std::cell::Cell<bool> = std::cell::Cell::new(false);
+}
+
 pub fn var_name(i: u32) -> String {
     if (i as usize) < VAR_NAMES.len() {
         VAR_NAMES[i as usize].to_string()
+    } else if UNDERSCORE_NAMES.with(|u| u.get()) {
+        format!("_v{}", i)
     } else {
         format!("v{}", i)
     }
